@@ -48,6 +48,9 @@ def run_prop(prop, tier):
         kinds = {'no_format', 'zone', 'axis'}
     n_q, n_t = (150, 1500) if prop in ('C05',) else (120, 1200)
     specs = list(wf.generate(prop, tier, n_q, n_t, kinds=kinds))
+    if prop in ('C03', 'C08'):
+        # structured array that is exactly the frame (no-copy path), with and without casts
+        specs += [(10000 + i, s) for i, s in wf.generate(prop, tier, 60, 600, stream='fastpath', kinds=set(), fastpath=True)]
     runs = wf.execute(specs, model, bres, chk, want_live_desc=(prop == 'C05'))
     for r in runs:
         chk.case('whole-file', nontrivial_key=r.index if r.res['status'] == 'ok' else None, sample=wf.sample_of(r))
@@ -70,7 +73,95 @@ def run_prop(prop, tier):
         wf.run_frames_oracle(runs, model, bres, chk)
     if prop == 'C16':
         wf.run_noformat_oracle(runs, model, bres, chk)
+    if prop == 'C08':
+        rewrite_stream(chk, model, bres, tier)
     return finish(chk, bres, cfg['theorems'], partial_note=cfg['note'])
+
+
+def rewrite_stream(chk, model, bres, tier):
+    """write, then change a channel's cast dtype (public setter) or hand in data of another dtype, write again: the
+    second file's descriptors must still describe the layout of its own records"""
+    import copy
+    import shutil
+    import tempfile
+    import numpy as np
+    from harness.common import rng
+    from harness import filegen, content
+    from harness.filegen import DT_RC
+    from harness.impl import call
+    if not bres.ok:
+        return
+    RC_DT = {v: k for k, v in DT_RC.items()}
+    R = rng('C08', 'rewrite')
+    tmp = tempfile.mkdtemp(prefix='verif_c08_')
+    try:
+        runs = []
+        for i in range(40 if tier == 'quick' else 400):
+            spec = filegen.gen_spec(R, n_lf=1, small=True, vrl=R.choice([8192, 128]), with_index=False)
+            spec['write'].update({'data_kind': 'dict', 'input_chunk_size': None, 'output_chunk_size': 2**20})
+            r1 = filegen.write(spec, tmp, fname='r1.dlis')
+            if r1['status'] != 'ok':
+                continue
+            b = r1['built'] if r1.get('built') is not None else None
+            if b is None:
+                b = filegen.build(spec)
+                call(b.df.write, f'{tmp}/r1.dlis', data=b.data, output_chunk_size=2**20)
+            lf = spec['lfs'][0]
+            chans = [(oi, o) for oi, o in enumerate(lf['objects']) if o['kind'] == 'channel']
+            oi, o = R.choice(chans)
+            s2 = copy.copy(spec)
+            s2['lfs'] = [dict(lf, objects=[dict(x) for x in lf['objects']])]
+            o2 = s2['lfs'][0]['objects'][oi]
+            mode = R.choice(['cast', 'data'])
+            new_dt = R.choice([d for d in filegen.DTYPES if d != o['dtype']])
+            if mode == 'cast':
+                b.handles[0][oi].cast_dtype = getattr(np, new_dt)
+                o2['cast_dtype'] = new_dt
+            else:
+                key = o.get('dataset_name') or o['name']
+                vals = np.arange(o['data'].size).reshape(o['data'].shape) % 100
+                b.data[key] = vals.astype(new_dt)
+                o2['data'] = b.data[key]
+                o2['dtype'] = new_dt
+            st, err = call(b.df.write, f'{tmp}/r2.dlis', data=b.data, output_chunk_size=2**20)
+            case = {'index': i, 'spec': filegen.describe(spec), 'after_first_write': f'channel #{oi}: {mode} -> {new_dt}'}
+            chk.case('rewrite', nontrivial_key=('rw', i), sample={'index': i, 'change': f'{mode}->{new_dt}', 'second_write': st})
+            if st != 'ok':
+                chk.count(f'rewrite:second-write-{err}')
+                continue
+            data2 = open(f'{tmp}/r2.dlis', 'rb').read()
+            rep = model.ask([filegen.dump_req(spec, data2)])[0]
+            if not rep.startswith('ok'):
+                chk.fail('rewrite:unreadable', case, 'strict reader rejects the second file')
+                continue
+            r = wf.Run()
+            r.index, r.case, r.res = i, case, {'status': 'ok', 'data': data2}
+            r.recs = filegen.parse_dump(rep)
+            # the dtype each channel is DECLARED with in the second file decides how a reader slices; expectation:
+            # the current data cast to that dtype
+            declared = {}
+            for rec in r.recs:
+                if rec['eflr'] and rec.get('set_type') == 'CHANNEL':
+                    labs = [t['label'] for t in rec['template']]
+                    for ob in rec['objects']:
+                        a = dict(zip(labs, ob['attrs']))
+                        if a.get('REPRESENTATION-CODE'):
+                            declared[ob['name']] = RC_DT.get(int(a['REPRESENTATION-CODE']['vals'][0][1:]))
+            s3 = copy.copy(s2)
+            s3['lfs'] = [dict(s2['lfs'][0], objects=[dict(x) for x in s2['lfs'][0]['objects']])]
+            for x in s3['lfs'][0]['objects']:
+                if x['kind'] == 'channel' and declared.get(x['name']) and declared[x['name']] != x['dtype']:
+                    x['cast_dtype'] = declared[x['name']]
+            r.spec = s3
+            r.sim, r.exp = content.expected(s3)
+            if wf.oracle_readable(r, chk, 'c08-rewrite'):
+                runs.append(r)
+        before = len(chk.failures)
+        wf.run_frames_oracle(runs, model, bres, chk)
+        for f in chk.failures[before:]:
+            f['key'] = 'rewrite:' + f['key']
+    finally:
+        shutil.rmtree(tmp, ignore_errors=True)
 
 
 def run(tier):
